@@ -1,5 +1,6 @@
 import JunoModel.Common.Proto
 import JunoModel.C12.Model
+import JunoModel.C12.ModelDriver
 /-!
 Line-protocol driver for the C12 `Exec` model (`lake build c12drv`). Several machines live side by
 side (one per simulated validator), each with its own `Env`.
@@ -15,6 +16,12 @@ Requests (numbers decimal, rounds may be negative, ids `nil` or decimal):
   to   <mid> <step 0|1|2> <h> <r>
   height <mid>
   fq <N>                      -- the thresholds f and q on 64-bit unsigned arithmetic
+  exec <replaying 0|1> <action>*   -- `driver.execute` on an action list (actions in the answer format):
+                                      the calls it makes (flush | set:<W..> | out:<B..> | sched:<T..> |
+                                      commit:<C..> | delete:<h> | sync:<S..>) and `# 0|1` (commit executed)
+  state <mid>                 -- the whole machine state (Tendermint variables + vote counter), canonical
+  replay <mid> <W:..>*        -- `driver.replay` of the loaded entries on machine <mid>: the entries fed to
+                                 ProcessWAL `# ` the calls made while executing the results `# ` final height
 Answer of an input: `<actions> # <rules fired>`, both space separated, `-` when empty.
 -/
 open Juno.Proto Juno.C12
@@ -174,6 +181,93 @@ def parseVotes : List String → Option (List Vote)
     | _, _, _, _, _ => none
   | _ => none
 
+
+/-! ### `exec`: `driver.execute` on a list of actions given in the answer format -/
+
+def parseVoteW : List String → Option Vote
+  | [h, r, s, id] =>
+    match h.toNat?, r.toInt?, s.toNat?, parseId id with
+    | some h, some r, some s, some id => some ⟨h, r, s, id⟩
+    | _, _, _, _ => none
+  | _ => none
+
+def parseProposalW : List String → Option Proposal
+  | [h, r, s, vr, v] =>
+    match h.toNat?, r.toInt?, s.toNat?, vr.toInt?, v.toNat? with
+    | some h, some r, some s, some vr, some v => some ⟨h, r, s, vr, v⟩
+    | _, _, _, _, _ => none
+  | _ => none
+
+def parseAction (w : String) : Option Action :=
+  match w.splitOn ":" with
+  | ["W", "S", h] => h.toNat?.map (fun h => .writeWAL (.start h))
+  | "W" :: "P" :: rest => (parseProposalW rest).map (fun p => .writeWAL (.proposal p))
+  | "W" :: "V" :: rest => (parseVoteW rest).map (fun v => .writeWAL (.prevote v))
+  | "W" :: "C" :: rest => (parseVoteW rest).map (fun v => .writeWAL (.precommit v))
+  | ["W", "T", s, h, r] =>
+    match parseStep s, h.toNat?, r.toInt? with
+    | some s, some h, some r => some (.writeWAL (.timeout s h r))
+    | _, _, _ => none
+  | "BP" :: rest => (parseProposalW rest).map .bcastProposal
+  | "BV" :: rest => (parseVoteW rest).map .bcastPrevote
+  | "BC" :: rest => (parseVoteW rest).map .bcastPrecommit
+  | ["T", s, h, r] =>
+    match parseStep s, h.toNat?, r.toInt? with
+    | some s, some h, some r => some (.schedule s h r)
+    | _, _, _ => none
+  | "C" :: rest => (parseProposalW rest).map .commit
+  | ["S", s, e] =>
+    match s.toNat?, e.toNat? with
+    | some s, some e => some (.triggerSync s e)
+    | _, _ => none
+  | _ => none
+
+def showDOp : DOp → String
+  | .flush => "flush"
+  | .set e => "set:" ++ showWal e
+  | .bcast a => "out:" ++ showAction a
+  | .sched s h r => s!"sched:T:{showStep s}:{h}:{r}"
+  | .onCommit p => "commit:C:" ++ showProposal p
+  | .delete h => s!"delete:{h}"
+  | .sync s e => s!"sync:S:{s}:{e}"
+
+/-! ### `state`: canonical dump of a machine (maps sorted by key) -/
+
+def sortBy {α : Type} (lt : α → α → Bool) (xs : List α) : List α :=
+  xs.foldl (fun acc x =>
+    let rec ins : List α → List α
+      | [] => [x]
+      | y :: ys => if lt x y then x :: y :: ys else y :: ins ys
+    ins acc) []
+
+def showBool (b : Bool) : String := if b then "1" else "0"
+
+def showBallots (b : BallotSet) : String :=
+  let bs := sortBy (fun (x y : Addr × Bool × Bool) => x.1 < y.1) b.ballots
+  s!"{b.total}/{b.perPrevote}/{b.perPrecommit}[" ++
+    ",".intercalate (bs.map (fun x => s!"{x.1}:{showBool x.2.1}{showBool x.2.2}")) ++ "]"
+
+def showRoundData (rd : RoundData) : String :=
+  let p := match rd.proposal with
+    | none => "-"
+    | some p => showProposal p
+  let ids := sortBy (fun (x y : Val × BallotSet) => x.1 < y.1) rd.perId
+  s!"p={p};u={rd.uncounted};nil={showBallots rd.nilVotes};all={showBallots rd.allVotes};ids=" ++
+    "|".intercalate (ids.map (fun x => s!"{x.1}~{showBallots x.2}"))
+
+def showRoundMap (rm : RoundMap) : String :=
+  let rs := sortBy (fun (x y : Round × RoundData) => x.1 < y.1) rm
+  "{" ++ " ".intercalate (rs.map (fun x => s!"r{x.1}<{showRoundData x.2}>")) ++ "}"
+
+def showMachine (m : Machine) : String :=
+  let s := m.state
+  let fut := sortBy (fun (x y : Height × RoundMap) => x.1 < y.1) m.vc.future
+  s!"h={s.height} r={s.round} st={showStep s.step} lv={showId s.lockedValue} lr={s.lockedRound} " ++
+  s!"vv={showId s.validValue} vr={s.validRound} f={showBool s.timeoutPrevoteScheduled}{showBool s.timeoutPrecommitScheduled}{showBool s.lockedValueAndOrValidValueSet} " ++
+  s!"started={showBool m.isHeightStarted} lts={m.lastTriggerSync} lq={m.lastQuorum} " ++
+  s!"vc={m.vc.cur}/{m.vc.totalVP}/{m.vc.faultyVP}/{m.vc.quorumVP} cur={showRoundMap m.vc.rounds} fut=" ++
+  "[" ++ " ".intercalate (fut.map (fun x => s!"h{x.1}{showRoundMap x.2}")) ++ "]"
+
 def step (st : DState) (line : String) : DState × String :=
   match words line with
   | ["new", mid, node, h, total, rot, vMod, vRem, vBase, vStep, pMul, powers, tbl, altTotal, altPowers, shipped] =>
@@ -234,6 +328,31 @@ def step (st : DState) (line : String) : DState × String :=
     | some mid =>
       match findSlot st mid with
       | some s => (st, toString s.m.state.height)
+      | none => (st, "bad-op")
+    | none => (st, "bad-op")
+  | "exec" :: b :: ws =>
+    match ws.mapM parseAction with
+    | some acts =>
+      if b == "0" || b == "1" then
+        let (ops, c) := execute (b == "1") acts
+        (st, showList (ops.map showDOp) ++ " # " ++ showBool c)
+      else (st, "bad-op")
+    | none => (st, "bad-op")
+  | "replay" :: mid :: ws =>
+    match mid.toNat?, ws.mapM parseAction with
+    | some mid, some acts =>
+      match findSlot st mid, acts.mapM (fun a => match a with | .writeWAL e => some e | _ => none) with
+      | some s, some es =>
+        let (m', ops, fed) := replay s.env s.m es
+        (putSlot st { s with m := m' },
+         showList (fed.map showWal) ++ " # " ++ showList (ops.map showDOp) ++ " # " ++ toString m'.state.height)
+      | _, _ => (st, "bad-op")
+    | _, _ => (st, "bad-op")
+  | ["state", mid] =>
+    match mid.toNat? with
+    | some mid =>
+      match findSlot st mid with
+      | some s => (st, showMachine s.m)
       | none => (st, "bad-op")
     | none => (st, "bad-op")
   | ["fq", n] =>
